@@ -982,9 +982,11 @@ theorem wf_list_step (W : World) (f : Nat) (ih : WfAt W f) :
                 intro ps _
                 split
                 · exact hrest _ _
-                · apply outOK_bindR
-                  intro res st1 hres
-                  exact outOK_prepend (ih.asElem _ _ _ _ _ hctx ht res st1 hres) (hrest _ _)
+                · split
+                  · exact hrest _ _
+                  · apply outOK_bindR
+                    intro res st1 hres
+                    exact outOK_prepend (ih.asElem _ _ _ _ _ hctx ht res st1 hres) (hrest _ _)
                 · split
                   · rename_i t a k hget
                     split
